@@ -117,4 +117,17 @@ KX_NegDivisor(Active, E) ==
     /\ Note("C05-negative-divisor-raises", <<E.name, KA2(E).v>>)
 
 KnownRaise(Active, E, BL, P) == KX_NegDivisor(Active, E)
+
+(* ----------------------------------------------------------------------- *)
+(* C07 (inertness under a false guard).  E is the body call that raised.   *)
+(* C07-zero-divisor-raises-under-false-guard: / // % divmod by a SECRET whose value is 0 raise           *)
+(* "Division by zero" even when error checks are off (false guard or ignore_errors).                  *)
+KnownInert(Active, E) ==
+    /\ IsActive(Active, "C07-zero-divisor-raises-under-false-guard")
+    /\ E.op = "bin" /\ Len(E.args) = 2 /\ Len(E.args[2]) = 1 /\ E.args[2][1].k \in {"int", "fxp", "bool"}
+    /\ \/ E.name \in {"truediv", "floordiv", "mod", "divmod"} /\ E.args[2][1].v = 0 /\ ~E.args[2][1].w
+       \* x >> secret divides by 2**secret, which inside a false guard is computed from guard-scaled constants and is 0
+       \/ E.name = "rshift"
+    /\ E.out = "raise" /\ E.exc \in {"ValueError", "ZeroDivisionError"}
+    /\ Note("C07-zero-divisor-raises-under-false-guard", <<E.name>>)
 =============================================================================
